@@ -48,6 +48,14 @@ def corpus(props=None):
                     out.append({"name": "mutants/%s/%s" % (p, f), "patch": os.path.join(d, f), "props": [p], "kind": "mutant", "primary": p, "expect_rule": exp})
     if props:
         out = [c for c in out if set(c["props"]) & set(props) or c["primary"] in props]
+    # behaviour-preserving refactorings: every property must stay silent
+    bd = os.path.join(VERIF, "benign")
+    if os.path.isdir(bd):
+        allp = sorted(f[:-3].upper() for f in os.listdir(os.path.join(VERIF, "sa", "rules")) if f.startswith("c") and f[1:3].isdigit() and f.endswith(".py"))
+        for name in sorted(os.listdir(bd)):
+            pf = os.path.join(bd, name, "patch.diff")
+            if os.path.isfile(pf):
+                out.append({"name": "benign/" + name, "patch": pf, "props": [p for p in allp if not props or p in props], "kind": "benign", "primary": "-"})
     return out
 
 
@@ -89,6 +97,8 @@ def run_case(case, props=None):
             if v:
                 hits.append(p)
         status = "detected" if hits else "MISSED"
+        if case.get("kind") == "benign":
+            status = "FALSE-ALARM" if hits else "silent"
         if status == "detected" and case.get("expect_rule"):
             allr = {r for p in res for r, _ in res[p]}
             if case["expect_rule"] not in allr and not any(r.startswith(case["expect_rule"]) for r in allr):
@@ -116,12 +126,17 @@ def run_for(prop):
     try:
         ev = json.load(open(path))
         ev["coverage"]["rule_sensitivity"] = {"cases": len(rs), "detected": len([r for r in rs if r["status"].startswith("detected")]),
-                                              "missed": missed, "not_applicable": [r["name"] for r in rs if r["status"] in ("patch-does-not-apply", "does-not-compile")]}
+                                              "missed": missed, "not_applicable": [r["name"] for r in rs if r["status"] in ("patch-does-not-apply", "does-not-compile")],
+                                              "benign_silent": [r["name"] for r in rs if r["status"] == "silent"],
+                                              "benign_false_alarm": [r["name"] for r in rs if r["status"] == "FALSE-ALARM"]}
         json.dump(ev, open(path, "w"), indent=1)
     except Exception:
         pass
     for m in missed:
         print("SELFTEST-MISS: %s is not detected by the %s rules (framework weakness, not a property verdict)" % (m, prop))
+    for r in rs:
+        if r["status"] == "FALSE-ALARM":
+            print("SELFTEST-FALSE-ALARM: the behaviour-preserving refactoring %s makes the %s rules report %s (framework weakness, not a property verdict)" % (r["name"], prop, r.get("by")))
     return 0
 
 
@@ -130,5 +145,8 @@ def main(argv):
     rs = run_all(props or None)
     n = len(rs)
     det = len([r for r in rs if r["status"].startswith("detected")])
-    print("selftest: %d cases, %d detected, %d missed, %d not applicable" % (n, det, len([r for r in rs if r["status"] == "MISSED"]), n - det - len([r for r in rs if r["status"] == "MISSED"])))
+    sil = len([r for r in rs if r["status"] == "silent"])
+    fa = len([r for r in rs if r["status"] == "FALSE-ALARM"])
+    miss = len([r for r in rs if r["status"] == "MISSED"])
+    print("selftest: %d cases, %d detected, %d missed, %d benign silent, %d benign false alarms, %d not applicable" % (n, det, miss, sil, fa, n - det - miss - sil - fa))
     return 0
